@@ -325,7 +325,7 @@ func treeMutations(file string, tree interface{}, uris []string, suffixes []stri
 
 func c14(r *hx.Run) {
 	fx.Quiet()
-	r.Rule = "six valid batch file sets (all four types; creates only; updates only; deactivates only; recover+update; 6 operations) are decoded to JSON trees; every structural mutation at every JSON path of every file (delete, duplicate, swap, null, [], {}, \"\", 0, true, foreign values, every didSuffix reference pointed at every other DID of the batch, every URI retargeted to another file / itself / missing / over-long / empty; thorough: all pairs of mutations on two different files), entries moved between lists, each operation duplicated consistently in every file that references it with the anchor count raised, count skews, every truncation of every compressed file, gzip header/trailer substitutions, uncompressed content, exact size and decompression boundaries per size parameter (also with the excess in a second gzip member, from an alternate source, and from an alternate source while the local copy is corrupt), the URI length boundary, an anchor-string grammar (named cases and the product of 17 count tokens x 5 separators x 9 address tokens), and every subset of failing CAS reads x alternate-source configurations (none / good / bad+good / failing formatter / bad+partial / bad; and ordered pairs of such transactions on one provider, the second compared with a fresh provider) are served to the real OperationProvider: it must return an error or operations satisfying the success invariant (count, distinct suffixes, validated deltas, parseable signed data) and never panic; the listed rejection classes must be errors. Non-trivial: distinct mutated inputs that are rejected plus those accepted with the invariant checked."
+	r.Rule = "six valid batch file sets (all four types; creates only; updates only; deactivates only; recover+update; 6 operations) are decoded to JSON trees; every structural mutation at every JSON path of every file (delete, duplicate, swap, null, [], {}, \"\", 0, true, foreign values, every didSuffix reference pointed at every other DID of the batch, every URI retargeted to another file / itself / missing / over-long / empty; thorough: all pairs of mutations on two different files), entries moved between lists, well-formed proofs of an operation type the core index has none of, each operation duplicated consistently in every file that references it with the anchor count raised, count skews, every truncation of every compressed file, gzip header/trailer substitutions, uncompressed content, exact size and decompression boundaries per size parameter (also with the excess in a second gzip member, from an alternate source, and from an alternate source while the local copy is corrupt), the URI length boundary, an anchor-string grammar (named cases and the product of 17 count tokens x 5 separators x 9 address tokens), and every subset of failing CAS reads x alternate-source configurations (none / good / bad+good / failing formatter / bad+partial / bad; and ordered pairs of such transactions on one provider, the second compared with a fresh provider) are served to the real OperationProvider: it must return an error or operations satisfying the success invariant (count, distinct suffixes, validated deltas, parseable signed data) and never panic; the listed rejection classes must be errors. Non-trivial: distinct mutated inputs that are rejected plus those accepted with the invariant checked."
 	p := fx.DefaultProtocol()
 	dids := []*fx.DIDOps{fx.NewDIDOps(fx.Ed25519, fx.SHA256, "a"), fx.NewDIDOps(fx.Ed25519, fx.SHA256, "b"), fx.NewDIDOps(fx.P256, fx.SHA256, "c"),
 		fx.NewDIDOps(fx.Ed25519, fx.SHA256, "d"), fx.NewDIDOps(fx.Ed25519, fx.SHA256, "e"), fx.NewDIDOps(fx.Ed25519, fx.SHA256, "f")}
@@ -676,6 +676,34 @@ func c14(r *hx.Run) {
 		}
 		if fs.trees["coreProof"] != nil {
 			mustReject("missing-core-proof-reference", "ref:core-proof-removed", p, edit("coreIndex", func(m map[string]interface{}) { delete(m, "coreProofFileUri") }), nil, fs.count)
+			// counts disagree for an operation type the core index does not have at all: well-formed proofs (taken from the first
+			// file set) of that type added to the core proof file, 1 or 2 of them; likewise update proofs in the provisional proof
+			getList := func(tree interface{}, typ string) []interface{} {
+				m, _ := tree.(map[string]interface{})
+				ops, _ := m["operations"].(map[string]interface{})
+				l, _ := ops[typ].([]interface{})
+				return l
+			}
+			for _, typ := range []string{"recover", "deactivate"} {
+				donor := getList(sets[0].trees["coreProof"], typ)
+				if len(getList(fs.trees["coreProof"], typ)) != 0 || len(donor) == 0 {
+					continue
+				}
+				for n := 1; n <= 2; n++ {
+					extra := make([]interface{}, 0, n)
+					for i := 0; i < n; i++ {
+						extra = append(extra, doc.Clone(donor[0]))
+					}
+					mustReject("proofs-for-absent-operation-type", fmt.Sprintf("count:core-proof:%s-proofs-without-operations:%d", typ, n), p, edit("coreProof", func(m map[string]interface{}) {
+						ops, _ := m["operations"].(map[string]interface{})
+						if ops == nil {
+							ops = map[string]interface{}{}
+							m["operations"] = ops
+						}
+						ops[typ] = extra
+					}), nil, fs.count)
+				}
+			}
 		} else {
 			// the superfluous reference points at: a real proof with operations, empty proofs of every shape, the set's own other proof
 			targets := map[string]interface{}{"real": sets[0].trees["coreProof"], "empty-object": map[string]interface{}{}, "empty-operations": map[string]interface{}{"operations": map[string]interface{}{}},
